@@ -228,6 +228,8 @@ def gen(tier, rng):
             return len(t[1]) > 0 and all(supported(x) for x in t[1])
         if t[0] == 11 and t[2] not in (0, 1, 2):
             return False
+        if 1 <= t[0] <= 8 and len(t) != 3:       # (tag t args via): convenience constructors, not in the snapshot
+            return False
         return supported(t[1])
 
     def tensor_case(term, ws, writes=()):
